@@ -2,12 +2,14 @@ package main
 
 import (
 	"bytes"
+	"crypto/ecdsa"
 	"fmt"
 	"io"
 	"math/big"
 	"sync"
 
 	"github.com/tjfoc/gmsm/sm2"
+	gx509 "github.com/tjfoc/gmsm/x509"
 
 	"verif/mon"
 	"verif/ref"
@@ -126,7 +128,7 @@ func effID(id []byte) []byte {
 
 func runC01(c *Ctx) {
 	rep := c.Rep
-	rep.Meta("sign cases: (key class, message length, ID class, nonce stream) through Sm2Sign and PrivateKey.Sign with a recording reader; monitor recovers the nonce k' = s(1+d)+rd and checks r = (e + x([k']G)) mod n with e, ZA recomputed by the reference, ranges, r+k' != n, determinism in the reader bytes, pairwise-distinct r and k' across different streams, and acceptance by all three verifiers. reject cases: every single-field perturbation of a valid tuple (message, ID, key, r, s, DER encoding) evaluated by gmsm and by the reference verifier + a strict DER reader; gmsm must reject whatever the reference rejects. Distinct non-trivial = distinct class keys (key class x message length x ID class x stream class; perturbation kind x API).",
+	rep.Meta("sign cases: (key class, message length, ID class, nonce stream) through Sm2Sign and PrivateKey.Sign with a recording reader; monitor recovers the nonce k' = s(1+d)+rd and checks r = (e + x([k']G)) mod n with e, ZA recomputed by the reference, ranges, r+k' != n, determinism in the reader bytes, pairwise-distinct r and k' across different streams, and acceptance by all three verifiers. reject cases: every single-field perturbation of a valid tuple (message, ID, key, r, s, DER encoding) evaluated by gmsm and by the reference verifier + a strict DER reader; gmsm must reject whatever the reference rejects; the DER manglings also go through the x509 consumer (Certificate.CheckSignature). histories: sign/verify sequences on one key whose ID and message buffers are edited in place between calls (answers must follow the current contents). Distinct non-trivial = distinct class keys (key class x message length x ID class x stream class; perturbation kind x API).",
 		2000, []string{"ref SM2 sign/verify/ZA (GM/T 0003.5 signature example at start of run)", "strict DER reader in the harness"},
 		[]string{"retry branches r=0, r+k=n, s=0 are unreachable by sampling", "IDs >= 8192 bytes are outside the quantifier"})
 	rk := c.Rng("keys")
@@ -305,6 +307,74 @@ func runC01(c *Ctx) {
 	})
 	rep.Count("signatures_with_distinct_r", int64(len(seenR)))
 	rep.Count("signatures_with_distinct_nonce", int64(len(seenK)))
+
+	// ---- histories on one key with caller buffers edited in place between calls (run serially, nothing in between):
+	// an answer must depend on the *contents* of message and ID at the time of the call, not on what an earlier call saw
+	{
+		rh := c.Rng("reuse")
+		nk := len(keys)
+		if nk > c.Q(10, 40) {
+			nk = c.Q(10, 40)
+		}
+		for ki := 0; ki < nk; ki++ {
+			key := keys[ki]
+			for _, il := range []int{1, 16, 17, 100} {
+				uid, msg := rh.Bytes(il), rh.Bytes(1+rh.Intn(80))
+				w := map[string]interface{}{"d": key.d.Text(16), "id_len": il, "history": "sign(id,msg); edit id in place; verify; sign; edit msg in place; verify"}
+				standard := func(tag string, R, S *big.Int, id, m []byte) {
+					kp := ref.RecoverK(key.d, R, S)
+					if r3, s3, ok := ref.SignWithK(key.d, kp, key.x, key.y, effID(id), m); !ok || r3.Cmp(R) != 0 || s3.Cmp(S) != 0 {
+						rep.Violation("C01/history/"+tag+"/not-the-standard-pair-for-the-current-buffer-contents", "", w)
+					}
+				}
+				var R, S, R2, S2 *big.Int
+				var err error
+				var v1, v2, v3, v4, v5 bool
+				if pi := mon.Guard(func() {
+					R, S, err = sm2.Sm2Sign(key.priv(), msg, uid, io.Reader(mon.NewRNG(rh.U64())))
+					if err != nil {
+						return
+					}
+					standard("first-sign", R, S, uid, msg)
+					idBefore := append([]byte{}, uid...)
+					uid[rh.Intn(len(uid))] ^= 0x01 // same slice, new contents
+					v1 = sm2.Sm2Verify(key.pub(), msg, uid, R, S)
+					R2, S2, err = sm2.Sm2Sign(key.priv(), msg, uid, io.Reader(mon.NewRNG(rh.U64())))
+					if err != nil {
+						return
+					}
+					standard("sign-after-id-edit", R2, S2, uid, msg)
+					v2 = sm2.Sm2Verify(key.pub(), msg, uid, R2, S2)
+					v3 = sm2.Sm2Verify(key.pub(), msg, idBefore, R2, S2)
+					msg[rh.Intn(len(msg))] ^= 0x80
+					v4 = sm2.Sm2Verify(key.pub(), msg, uid, R2, S2)
+					msg[0] ^= 0 // no-op
+					copy(uid, idBefore)
+					v5 = sm2.Sm2Verify(key.pub(), msg, uid, R, S) // message still edited: must fail
+				}); pi != nil {
+					rep.Violation("C01/history/panic/"+pi.Func, pi.Value, w)
+					continue
+				}
+				if err != nil {
+					rep.Violation("C01/history/sign-error", err.Error(), w)
+					continue
+				}
+				if v1 {
+					rep.Violation("C01/history/signature-for-ID-verifies-under-the-edited-ID", "", w)
+				}
+				if !v2 {
+					rep.Violation("C01/history/own-signature-rejected-after-id-edit", "", w)
+				}
+				if v3 {
+					rep.Violation("C01/history/signature-for-edited-ID-verifies-under-the-old-ID", "", w)
+				}
+				if v4 || v5 {
+					rep.Violation("C01/history/signature-verifies-after-message-edited-in-place", "", w)
+				}
+				rep.Eval(fmt.Sprintf("history/in-place-edits/%s/idlen=%d", key.cls, il))
+			}
+		}
+	}
 
 	// ---- rejection: single-field perturbations
 	other := mkKey("other", new(big.Int).SetBytes(c.Rng("otherkey").Bytes(31)))
@@ -491,6 +561,20 @@ func runC01(c *Ctx) {
 				}
 				rep.Eval("reject/PublicKey.Verify/" + m.name)
 				rep.Count("perturbations", 1)
+				// the same signature through the x509 consumer (certificate / CSR / CRL checks parse the DER themselves)
+				xc := &gx509.Certificate{PublicKey: &ecdsa.PublicKey{Curve: sm2.P256Sm2(), X: sg.key.x, Y: sg.key.y}, PublicKeyAlgorithm: gx509.ECDSA}
+				var xerr error
+				if pi := mon.Guard(func() { xerr = xc.CheckSignature(gx509.SM2WithSM3, msg, m.b) }); pi != nil {
+					rep.Violation("C01/x509.CheckSignature/panic/"+pi.Func+"/"+m.name, pi.Value, w)
+					continue
+				}
+				if xerr == nil && !want {
+					rep.Violation("C01/x509.CheckSignature/accepts/"+m.name, "accepted although not a strict DER signature the standard accepts", w)
+				}
+				if want && xerr != nil {
+					rep.Violation("C01/x509.CheckSignature/rejects-valid/"+m.name, xerr.Error(), w)
+				}
+				rep.Eval("reject/x509.CheckSignature/" + m.name)
 			}
 		}
 		if i == 1 {
